@@ -140,7 +140,7 @@ func (c *Ctx) role(name string) *ssa.Function {
 	case "sam.tagToText":
 		return c.calleeBySig(c.role("sam.tagsToText"), "(string,interface{})(string)", 0)
 	case "align.charOrGap":
-		return c.calleeBySig(c.fn("align", "(SubstitutionMatrix).GoString"), "(byte)(string)", 0)
+		return c.calleeBySig(c.fn("align", "(SubstitutionMatrix).GoString"), "(byte)(string)", 1)
 	case "trie.keys":
 		return c.calleeBySig(c.fn("trie", "(*Trie).ForEach"), "(*trie.Trie)()([]byte)", 2)
 	}
@@ -276,4 +276,58 @@ func (c *Ctx) stageFuncs(root *ssa.Function) []*ssa.Function {
 		}
 	}
 	return out
+}
+
+// soleDelegate: the function's body only hands its work to one module function — `g(args...)` and return, nothing
+// else that has an effect (loads of captured variables and conversions aside). Returns g and the call.
+func (c *Ctx) soleDelegate(f *ssa.Function) (*ssa.Function, *ssa.Call) {
+	if f == nil || len(f.Blocks) != 1 {
+		return nil, nil
+	}
+	var call *ssa.Call
+	for _, in := range f.Blocks[0].Instrs {
+		switch x := in.(type) {
+		case *ssa.Call:
+			if call != nil {
+				return nil, nil
+			}
+			call = x
+		case *ssa.UnOp, *ssa.Return, *ssa.DebugRef, *ssa.ChangeType, *ssa.MakeInterface, *ssa.ChangeInterface, *ssa.Convert, *ssa.Alloc, *ssa.Store, *ssa.Extract:
+		default:
+			return nil, nil
+		}
+	}
+	if call == nil {
+		return nil, nil
+	}
+	g := call.Call.StaticCallee()
+	if g == nil || g.Blocks == nil || !c.inModule(g) || g == f {
+		return nil, nil
+	}
+	return g, call
+}
+
+// delegatedBody: f itself, or — when f only delegates — the function that does the work, with a symb that renders
+// that function's parameters as f renders the arguments (so rules keep f's vocabulary), and the value that stands
+// for f's i-th parameter there.
+func (c *Ctx) delegatedBody(f *ssa.Function) (*ssa.Function, *symb, func(p *ssa.Parameter) ssa.Value) {
+	s := newSymb(f)
+	g, call := c.soleDelegate(f)
+	if g == nil {
+		return f, s, func(p *ssa.Parameter) ssa.Value { return p }
+	}
+	gs := newSymb(g)
+	for i, p := range g.Params {
+		if i < len(call.Call.Args) {
+			gs.subst[p] = s.expr(call.Call.Args[i])
+		}
+	}
+	return g, gs, func(p *ssa.Parameter) ssa.Value {
+		for i, a := range call.Call.Args {
+			if a == ssa.Value(p) && i < len(g.Params) {
+				return g.Params[i]
+			}
+		}
+		return p
+	}
 }
